@@ -3,3 +3,5 @@
 mod positions;
 #[cfg(kani)]
 mod tokens;
+#[cfg(kani)]
+mod cursor;
